@@ -133,6 +133,14 @@ func TestVerifC14(t *testing.T) {
 			_ = ls.S.Invoke(peer.NewCallContext(ended, ckey.Static()), "Echo", vAppMsg("t", nil, ""), &message.Response{})
 			_ = ls.S.Invoke(peer.NewCallContext(ended, other), "Echo", vAppMsg("t", nil, ""), &message.Response{})
 			_ = cc.Invoke(ended, "Echo", vAppMsg("t", nil, ""), &message.Response{})
+			// a blocking dial which gives up (nobody listens there): it returns no connection, so nothing of it may stay
+			if i < 6 {
+				dctx, dcancel := context.WithTimeout(context.Background(), 60*time.Millisecond)
+				if gone, derr := vDialLib(dctx, "127.0.0.1:1", ckey, skey.Pub, WithBlock()); derr == nil && gone != nil {
+					vClose(gone, 2*time.Second)
+				}
+				dcancel()
+			}
 		}
 	}
 	reconnect(2)
